@@ -104,6 +104,9 @@ def shift_summary(fr: Frame, op, l, r, node):
     if not (isinstance(l, ARec) and l.circular):
         return NotImplemented
     I = fr.I
+    from .absint import SUMMARIES_USED
+
+    SUMMARIES_USED.add("shift")
     if not isinstance(r, (Aff, int)):
         fr.unsupported(node, "rotation amount %r" % (r,))
     k = Aff.of(r)
@@ -129,22 +132,27 @@ def k1_group(ctx, pid: str):
     a, b = Aff.sym("a"), Aff.sym("b")
     rule = "K1.group-interval"
     total = 0
-    for scen, rec_kind, facts in (
-        # circular search: the text is doubled, starts in [0, n), window one turn
-        ("circular-record", "rec", [N - 1, a, b - a, a + N - b, N.scale(2) - 1 - b]),
-        ("circular-seq", "seq", [N - 1, a, b - a, a + N - b, N.scale(2) - 1 - b]),
-        # linear search: spans lie inside the text
-        ("linear-record", "linrec", [N - 1, a, b - a, N - b]),
-    ):
-        def make_args(I, rec_kind=rec_kind):
-            if rec_kind == "rec":
+    from .kernels2 import seqmatch_templates
+
+    templates = seqmatch_templates(ctx)
+    # circular search: the text is doubled, starts in [0, n), window one turn; linear search: spans lie inside the text
+    CIRC = [N - 1, a, b - a, a + N - b, N.scale(2) - 1 - b]
+    LIN = [N - 1, a, b - a, N - b]
+    scenarios = []
+    for (kind, linear), tmpl in sorted(templates.items(), key=repr):
+        doubled = kind == "CircularRecord" or linear is False
+        scenarios.append(("%s,linear=%s" % (kind, {None: "default"}.get(linear, linear)), kind, tmpl, CIRC if doubled else LIN))
+    for scen, rec_kind, tmpl, facts in scenarios:
+        def make_args(I, rec_kind=rec_kind, tmpl=tmpl):
+            if rec_kind == "CircularRecord":
                 rec = circ_record()
-            elif rec_kind == "linrec":
+            elif rec_kind == "SeqRecord":
                 rec = ARec(False, [Piece("W", ZERO, N)], Term("rec"))
             else:
                 rec = ASeq("Seq", [Piece("W", ZERO, N)])
             m = AReMatch(None, {}, generic_group=(a, b))
-            obj = AObj(cls, {"match": m, "rec": rec, "shift": 0})
+            attrs = {k: (m if v == "<match>" else rec if v == "<target>" else v) for k, v in tmpl.items()}
+            obj = AObj(cls, attrs)
             return (obj, Term("g")), {}
 
         def post(I, o):
@@ -164,7 +172,9 @@ def k1_group(ctx, pid: str):
 
         def make_args2(I, name=name):
             m = AReMatch(None, {0: (a, b)}, generic_group=(a, b))
-            obj = AObj(cls, {"match": m, "rec": circ_record(), "shift": 0})
+            from .kernels2 import new_seqmatch
+
+            obj = new_seqmatch(p, m, circ_record())
             return ((obj, Term("g")) if name == "span" else (obj,)), {}
 
         def post2(I, o, name=name, f2=f2):
@@ -200,6 +210,8 @@ def k3_rshift(ctx, pid: str, which=("K3", "K4")):
     r = ctx.report
     p = ctx.program
     k = Aff.sym("any:k")
+    if "K3" in which:
+        ctx.established.add("shift")
     for meth, sign in (("__rshift__", 1), ("__lshift__", -1)):
         fi = p.get_func("moclo.record.CircularRecord.%s" % meth)
 
@@ -271,7 +283,9 @@ def _structured_obj(I: Interp, ci: ClassInfo, name: str, spans: Dict[int, tuple]
     rec.attrs["id"] = Term("id", Term(name))
     sm_cls = I.p.get_class("moclo.regex.SeqMatch")
     rm = AReMatch(ASeq("str", [Piece("W:" + name, ZERO, N), Piece("W:" + name, ZERO, N)]), spans)
-    sm = AObj(sm_cls, {"match": rm, "rec": rec, "shift": 0})
+    from .kernels2 import new_seqmatch
+
+    sm = new_seqmatch(I.p, rm, rec)
     obj = AObj(ci, {"record": rec, "seq": ASeq("Seq", rec.pieces), "cutter": AEnzymeV(five_prime)}, name=name)
     # the class's own _match is what the structure pattern matched (its screen is C04/C17 business)
     obj.attrs["_match"] = sm
